@@ -603,3 +603,30 @@ def origin_summary(o):
         k = o.data[0]
         return "agg:%s" % (k[1] + "::" + k[2] if k[0] == "adt" else k[0])
     return o.kind
+
+
+def closure_site(facts, cb):
+    """(parent body, block, stmt) of the aggregate that constructs closure/coroutine body `cb`"""
+    if not cb.parent or cb.parent not in facts.bodies:
+        return None
+    pb = facts.bodies[cb.parent]
+    for bi, si, s in pb.statements():
+        if s["k"] == "assign" and s["r"][0] == "agg" and s["r"][1][0] in ("closure", "coroutine", "coroutine_closure") and s["r"][1][1] == cb.path:
+            return pb, bi, si, s
+    return None
+
+
+def upvar_origins(facts, cb, field_index):
+    """origins, in the parent body, of the value captured as upvar #field_index of closure cb"""
+    site = closure_site(facts, cb)
+    if site is None:
+        return None
+    pb, bi, si, s = site
+    ops = s["r"][2]
+    if field_index >= len(ops):
+        return None
+    return pb, trace(pb, ops[field_index])
+
+
+def field_path(o):
+    return tuple(str(p[2] if p[2] is not None else p[1]) for p in o.projs if p[0] == "field")
